@@ -164,4 +164,5 @@ def build(ub, algebra_text):
         prefix="broadcast use group_bv_algebra, group_arith;\n")
     ub.emit_synth("readback_bv_to_bool", "readback_bv_to_bool", "fn readback_bv_to_bool(ctx: &mut Context, x: ExprRef) -> ExprRef",
                   "{ let l1 = ctx.one(1); smt_bin_eq(ctx, x, l1) }", SS.SER, ser.line, {"receivers": {}}, note="`(= t #b1)` read by the = arm")
+    ub.pin_rest_of_file(PARSER)   # frame: the other functions of the file (DESIGN 11.12)
     ub.out("} // verus!\nfn main() {}\n")
